@@ -104,8 +104,13 @@ impl OMsg {
     }
 }
 
+pub static NONMINIMAL_SPLITS: std::sync::atomic::AtomicU64 = std::sync::atomic::AtomicU64::new(0);
+
 /// Cuts the transfer into messages with the library's `delta_chunks` and checks the sender-side
-/// premise of the property (ceil(len/900) parts, right message form, parts concatenate to the data).
+/// premise of the property: the messages are consistent (same tick, base tick and checksum, parts
+/// numbered 0..n-1 of n) and their data concatenates to the original data. How the data is cut is the
+/// sender's business: a split other than the minimal one (ceil(len/900) non-empty parts, empty / single
+/// form for 0 / 1 part) is only counted.
 pub fn sender_msgs(tr: &Transfer, data: &[u8]) -> Result<Vec<OMsg>, String> {
     ensure!(
         tr.tick.checked_sub(tr.base).is_some(),
@@ -122,34 +127,38 @@ pub fn sender_msgs(tr: &Transfer, data: &[u8]) -> Result<Vec<OMsg>, String> {
         out
     })?;
     let n = (data.len() + PART - 1) / PART;
-    ensure_eq!(msgs.len(), n.max(1), "number of messages for {} bytes", data.len());
+    ensure!(!msgs.is_empty(), "delta_chunks produced no message for {} bytes", data.len());
+    let mut minimal = msgs.len() == n.max(1);
     let wire = tr.tick - tr.base;
     let mut cat = Vec::with_capacity(data.len());
     for (i, m) in msgs.iter().enumerate() {
         match m {
             OMsg::Empty { tick, delta_tick } => {
-                ensure!(n == 0, "empty form used for {} bytes", data.len());
+                ensure!(msgs.len() == 1, "empty form among {} messages", msgs.len());
                 ensure_eq!((*tick, *delta_tick), (tr.tick, wire), "attributes of the empty form");
             }
             OMsg::Single { tick, delta_tick, crc, data: d } => {
-                ensure!(n == 1, "single form used for {} bytes", data.len());
+                ensure!(msgs.len() == 1, "single form among {} messages", msgs.len());
                 ensure_eq!((*tick, *delta_tick, *crc), (tr.tick, wire, tr.crc), "attributes of the single form");
+                minimal &= n == 1;
                 cat.extend_from_slice(d);
             }
             OMsg::Part { tick, delta_tick, num_parts, part, crc, data: d } => {
-                ensure!(n >= 2, "multi-part form used for {} bytes", data.len());
                 ensure_eq!(
                     (*tick, *delta_tick, *crc, *num_parts, *part),
-                    (tr.tick, wire, tr.crc, n as i32, i as i32),
+                    (tr.tick, wire, tr.crc, msgs.len() as i32, i as i32),
                     "attributes of part {}",
                     i
                 );
-                ensure!(!d.is_empty() && d.len() <= PART, "part {} has {} bytes", i, d.len());
+                minimal &= n >= 2 && !d.is_empty() && d.len() <= PART;
                 cat.extend_from_slice(d);
             }
         }
     }
     ensure!(cat == data, "the parts in order do not concatenate to the data ({} bytes)", data.len());
+    if !minimal {
+        NONMINIMAL_SPLITS.fetch_add(1, std::sync::atomic::Ordering::Relaxed);
+    }
     Ok(msgs)
 }
 
@@ -260,12 +269,34 @@ fn run_hist(c: &HistCase, skip_old: bool) -> Result<(Vec<(usize, String)>, Stats
     let mut completed = false;
     let mut done_ticks: BTreeSet<i32> = BTreeSet::new();
     let mut out = Vec::new();
+    // Schedules are generated for the minimal split (ceil(len/900) messages). Should the sender cut the
+    // data differently, they are mapped onto what it produced: surplus messages follow the last regular
+    // one, indices beyond the end wrap around (and count as duplicates).
+    let mut sched: Vec<(usize, Deliv)> = Vec::with_capacity(c.sched.len());
     for (si, d) in c.sched.iter().enumerate() {
+        match d {
+            Deliv::Part { t, p } => {
+                let ti = *t as usize;
+                ensure!(ti < msgs.len(), "generator error: bad schedule entry");
+                let minimal = ((datas[ti].len() + PART - 1) / PART).max(1);
+                let have = msgs[ti].len();
+                ensure!((*p as usize) < minimal, "generator error: bad schedule entry");
+                sched.push((si, Deliv::Part { t: *t, p: (*p as usize % have) as u8 }));
+                if *p as usize == minimal - 1 {
+                    for extra in minimal..have {
+                        sched.push((si, Deliv::Part { t: *t, p: extra.min(255) as u8 }));
+                    }
+                }
+            }
+            other => sched.push((si, other.clone())),
+        }
+    }
+    for (si, d) in sched.iter() {
+        let si = *si;
         burn();
         let (m, consistent_of): (OMsg, Option<(usize, u8)>) = match d {
             Deliv::Part { t, p } => {
                 let ti = *t as usize;
-                ensure!(ti < msgs.len() && (*p as usize) < msgs[ti].len(), "generator error: bad schedule entry");
                 (msgs[ti][*p as usize].clone(), Some((ti, *p)))
             }
             Deliv::Old { back, form, delta_tick, num_parts, part, crc, len } => {
@@ -790,7 +821,7 @@ pub fn run(ctx: &Ctx) {
          old-tick messages. Non-trivial = a transfer of >= 2 parts was completed after out-of-order delivery or a duplicate (histories: \
          distinct by case hash).",
     );
-    ctx.assume("the sender side is the library's own delta_chunks; its output form is checked as the premise (ceil(len/900) parts, parts concatenate to the data)");
+    ctx.assume("the sender side is the library's own delta_chunks; the premise checked on its output is consistency (same tick / base / crc, parts numbered 0..n-1 of n, data concatenates to the original); a split other than the minimal ceil(len/900) one is delivered completely and only counted");
     ctx.assume("the reference model treats a tick as 'seen' when any message for it was passed to the receiver");
     let open = ctx.known_open(KEY_ATTR);
     ctx.probe(KEY_ATTR, probe_attr);
@@ -854,4 +885,5 @@ pub fn run(ctx: &Ctx) {
             Ok(hist_outcome(c, &st))
         },
     );
+    ctx.extra("sender_splits_other_than_minimal", serde_json::json!(NONMINIMAL_SPLITS.load(std::sync::atomic::Ordering::Relaxed)));
 }
